@@ -141,8 +141,10 @@ func newVM() *otto.Otto {
 	return vm
 }
 
-func watchdog(vm *otto.Otto) func() {
-	t := time.AfterFunc(1500*time.Millisecond, func() {
+func watchdog(vm *otto.Otto) func() { return watchdogAfter(vm, 1500*time.Millisecond) }
+
+func watchdogAfter(vm *otto.Otto, d time.Duration) func() {
+	t := time.AfterFunc(d, func() {
 		select {
 		case vm.Interrupt <- func() { panic(haltT{}) }:
 		default:
@@ -261,7 +263,7 @@ func implC02(line string) string {
 			return "bad-op"
 		}
 		return implSeq(string(b))
-	case "src", "eval", "compile", "gocall", "goobject", "goname":
+	case "src", "eval", "compile", "gocall", "goobject", "goname", "strfn":
 		if len(f) < 2 {
 			f = append(f, "")
 		}
@@ -279,14 +281,34 @@ func implC02(line string) string {
 			case "eval":
 				vm.Eval(string(b))
 			case "gocall":
-				// Otto.Call parses its first argument as source text (plain, "new …", with and without a this value)
-				vm.Call(string(b), nil)
-				vm.Call(string(b), nil, 1, "a")
-				vm.Call("new "+string(b), nil, 1)
-				vm.Call(string(b), map[string]interface{}{"a": 1}, 2)
+				// Otto.Call parses its first argument as source text (plain, "new …", with and without a this
+				// value); each call gets its own watchdog (a mutated source may spin)
+				wd := func(f func()) { st := watchdogAfter(vm, 600*time.Millisecond); defer st(); f() }
+				wd(func() { vm.Call(string(b), nil) })
+				wd(func() { vm.Call(string(b), nil, 1, "a") })
+				wd(func() { vm.Call("new "+string(b), nil, 1) })
+				wd(func() { vm.Call(string(b), map[string]interface{}{"a": 1}, 2) })
 			case "goobject":
-				vm.Object(string(b))
-				vm.Object("(" + string(b) + ")")
+				wd := func(f func()) { st := watchdogAfter(vm, 600*time.Millisecond); defer st(); f() }
+				wd(func() { vm.Object(string(b)) })
+				wd(func() { vm.Object("(" + string(b) + ")") })
+			case "strfn":
+				// built-ins that parse their string argument: the byte string as parameter list and as body of
+				// the Function constructor, as pattern and flags of RegExp, as JSON text, URI, date, number
+				wd := func(f func()) { st := watchdogAfter(vm, 400*time.Millisecond); defer st(); f() }
+				x := string(b)
+				wd(func() { vm.Call("Function", nil, x) })
+				wd(func() { vm.Call("Function", nil, x, "return 1") })
+				wd(func() { vm.Call("new Function", nil, "a", x) })
+				wd(func() { vm.Call("eval", nil, x) })
+				wd(func() { vm.Call("RegExp", nil, x) })
+				wd(func() { vm.Call("new RegExp", nil, "a", x) })
+				wd(func() { vm.Call("JSON.parse", nil, x) })
+				wd(func() { vm.Call("decodeURIComponent", nil, x) })
+				wd(func() { vm.Call("unescape", nil, x) })
+				wd(func() { vm.Call("Date.parse", nil, x) })
+				wd(func() { vm.Call("parseFloat", nil, x) })
+				wd(func() { vm.Call("Number", nil, x) })
 			case "goname":
 				// arbitrary bytes as a global name / property name through the Go API
 				vm.Set(string(b), 1)
@@ -376,9 +398,10 @@ func genC02(c *h.Ctx) {
 		c.Add("seq "+hex.EncodeToString([]byte(genSeqArray(r.Fork(), 3+r.Intn(8)))), "sequence:array-error-paths")
 	}
 	// byte strings as source
-	kinds := []string{"src", "eval", "compile", "gocall", "goobject", "goname"}
+	kinds := []string{"src", "eval", "compile", "gocall", "goobject", "goname", "strfn"}
 	// fixed odd sources for every kind (programs without statements, comments swallowing what the API appends, …)
-	for _, odd := range []string{"", " ", "//x", "/*", "/**/", "//", "f //", "new", "new ", "new //x", ";", "{}", "()", ")", "a.b", "a[", "this", "null", "undefined", "Math.abs", "Math.abs //", "\n", "\u2028", "0", "'s'", "function(){}", "(function(){})", "x => x"} {
+	for _, odd := range []string{"", " ", "//x", "/*", "/**/", "//", "f //", "new", "new ", "new //x", ";", "{}", "()", ")", "a.b", "a[", "this", "null", "undefined", "Math.abs", "Math.abs //", "\n", "\u2028", "0", "'s'", "function(){}", "(function(){})", "x => x",
+		"})(function(){", "}, function(){", "a){}) ; (function(b", "}", "{", ") {", "*/", "(", "[", "(?", "\\", "%", "%E0%A4%A", "{\"a\":", "[1,", "1e", "0x", "-", "T", "2000-", "Infinity", "+"} {
 		for _, k := range kinds {
 			c.Add(k+" "+hex.EncodeToString([]byte(odd)), "source:"+k)
 		}
